@@ -29,37 +29,187 @@ func randCase(r *core.Rand, s string) string {
 	return string(b)
 }
 
-// genAuth draws the Proxy-Authorization field lines of a request and a label.
-func genAuth(r *core.Rand) ([]string, string) {
-	right := "Basic " + b64(authUser+":"+authPass)
-	switch r.Intn(20) {
+// genAuth draws the Proxy-Authorization field lines of a request and a label (proxy-level cases: the
+// one configured pair).
+func genAuth(r *core.Rand) ([]string, string) { return genAuthFor(r, authUser, authPass, true) }
+
+func swapCase(s string) string {
+	b := []byte(s)
+	for i := range b {
+		if b[i] >= 'a' && b[i] <= 'z' {
+			b[i] -= 32
+		} else if b[i] >= 'A' && b[i] <= 'Z' {
+			b[i] += 32
+		}
+	}
+	return string(b)
+}
+
+func reverse(s string) string {
+	b := []byte(s)
+	for i, j := 0, len(b)-1; i < j; i, j = i+1, j-1 {
+		b[i], b[j] = b[j], b[i]
+	}
+	return string(b)
+}
+
+// nearCredentials draws a credentials string (what goes into base64) that is close to user:pass
+// without (in general) being it: whether it is the configured pair is for the oracle to say, from the
+// value alone (a shifted colon can land on the configured pair again when the password has colons).
+func nearCredentials(r *core.Rand, user, pass string) (string, string) {
+	cat := user + pass
+	cut := func(s string) int {
+		if len(s) == 0 {
+			return 0
+		}
+		return r.Intn(len(s) + 1)
+	}
+	switch r.Intn(16) {
+	case 0, 1, 2:
+		// the user/password boundary shifted: same bytes around the colon, another pair
+		k := cut(cat)
+		if k == len(user) && len(cat) > 0 {
+			k = (k + 1 + r.Intn(len(cat))) % (len(cat) + 1)
+		}
+		return cat[:k] + ":" + cat[k:], "near-shifted-boundary"
+	case 3:
+		return core.Pick(r, []string{":" + cat, cat + ":", cat, ":" + user + pass + ":", user, pass, ":", "", user + ";" + pass, user + "\x00" + pass,
+			user + ": " + pass, user + " :" + pass, user + " : " + pass, user + "=" + pass}), "near-boundary-edge"
+	case 4:
+		u, p := user, pass
+		switch r.Intn(4) {
+		case 0:
+			u = u[:cut(u)]
+		case 1:
+			u = u[cut(u):]
+		case 2:
+			p = p[:cut(p)]
+		default:
+			p = p[cut(p):]
+		}
+		return u + ":" + p, "near-prefix-suffix"
+	case 5:
+		x := core.Pick(r, []string{"x", " ", "\x00", ":", "\n", "\t", user, pass, "0"})
+		return core.Pick(r, []string{user + x + ":" + pass, x + user + ":" + pass, user + ":" + pass + x, user + ":" + x + pass}), "near-extended"
+	case 6:
+		u, p := user, pass
+		f := core.Pick(r, []func(string) string{strings.ToUpper, strings.ToLower, swapCase, func(s string) string { return randCase(r, s) }})
+		switch r.Intn(3) {
+		case 0:
+			u = f(u)
+		case 1:
+			p = f(p)
+		default:
+			u, p = f(u), f(p)
+		}
+		return u + ":" + p, "near-case-variant"
+	case 7:
+		return core.Pick(r, []string{pass + ":" + user, pass + ":" + pass, user + ":" + user, user + ":" + reverse(pass), reverse(user) + ":" + pass,
+			reverse(user + ":" + pass), reverse(pass) + ":" + reverse(user)}), "near-swapped-reversed"
+	case 8:
+		return core.Pick(r, []string{user + "::" + pass, user + ":" + pass + ":", ":" + user + ":" + pass, user + ":::" + pass, "::" + cat}), "near-doubled-colon"
+	case 9:
+		return core.Pick(r, []string{":" + pass, user + ":", ":", user + ": ", " :" + pass}), "near-empty-part"
+	case 10:
+		return core.Pick(r, []string{" " + user + ":" + pass, user + " :" + pass, user + ": " + pass, user + ":" + pass + " ", user + ":" + pass + "\n",
+			user + ":" + pass + "\r\n", "\t" + user + ":" + pass, user + ":" + pass + "\x00", " " + user + ":" + pass + " "}), "near-space-padded"
+	case 11:
+		return core.Pick(r, []string{user + ":wrong", "wrong:" + pass, user + ":" + user + pass, cat + ":" + pass, user + ":" + cat, "other:secret"}), "near-one-part-right"
+	case 12:
+		return core.Pick(r, []string{user + ":" + pass + pass, user + user + ":" + pass, user + ":" + pass + ":" + user + ":" + pass, user + ":" + pass + user + ":" + pass}), "near-repeated"
+	case 13, 14:
+		// one byte changed, same lengths (also: a multiple-of-256 / bit-flip neighbour)
+		b := []byte(user + ":" + pass)
+		k := r.Intn(len(b))
+		if b[k] == ':' && r.Chance(70) && len(b) > 1 {
+			k = (k + 1) % len(b)
+		}
+		b[k] ^= byte(1 << r.Intn(8))
+		return string(b), "near-one-byte-changed"
+	default:
+		// characters permuted: same multiset of bytes in user and in password
+		ub, pb := []byte(user), []byte(pass)
+		if r.Bool() {
+			core.Shuffle(r, ub)
+		} else {
+			core.Shuffle(r, pb)
+		}
+		return string(ub) + ":" + string(pb), "near-permuted"
+	}
+}
+
+const b64Alphabet = "ABCDEFGHIJKLMNOPQRSTUVWXYZabcdefghijklmnopqrstuvwxyz0123456789+/"
+
+// nonCanonicalB64: another base64 spelling of the same bytes (non-zero padding bits), if there is one.
+func nonCanonicalB64(r *core.Rand, good string) (string, bool) {
+	g := []byte(good)
+	n := len(g)
+	switch {
+	case n >= 4 && g[n-1] == '=' && g[n-2] == '=':
+		i := strings.IndexByte(b64Alphabet, g[n-3])
+		g[n-3] = b64Alphabet[i^(1+r.Intn(15))]
+	case n >= 4 && g[n-1] == '=':
+		i := strings.IndexByte(b64Alphabet, g[n-2])
+		g[n-2] = b64Alphabet[i^(1+r.Intn(3))]
+	default:
+		return good, false
+	}
+	return string(g), true
+}
+
+// schemeSpellings: how the scheme token and the separator may be written (only the first three are
+// `Basic` + one space in some case).
+var schemeSpellings = []string{"basic ", "BASIC ", "bAsIc ", "Basic", "Basic  ", "Basic\t", "Basic: ", "Basi c ", "Basic,", "Basic=", "Bearer ", "Negotiate ",
+	"Digest ", "", "Basic Basic ", "Basicc ", "asic ", "Bäsic ", "Baſic ", "Baſic", "BAſIC "}
+
+// paddingVariants: spellings of a base64 text that differ in padding / alphabet / trailing bytes.
+func paddingVariants(r *core.Rand, good string) string {
+	raw := strings.TrimRight(good, "=")
+	vs := []string{raw, good + "=", good + "==", good + "====", raw + "=", raw + "==", raw + "===", "=" + good, good + "A", good + "AA==", good + " x", good + ",",
+		strings.NewReplacer("+", "-", "/", "_").Replace(good), good + good, raw + good}
+	if len(good) > 4 {
+		vs = append(vs, good[:4]+" "+good[4:], good[:len(good)-2], good[:len(good)-1], good[:4]+"="+good[4:], good[:2]+"=="+good[2:])
+	}
+	return core.Pick(r, vs)
+}
+
+// genAuthFor draws the Proxy-Authorization field lines for the configured pair user/pass and a label.
+// wire: the values travel in a serialised request (no leading/trailing white space, which the request
+// parser would trim before the control sees the value).
+func genAuthFor(r *core.Rand, user, pass string, wire bool) ([]string, string) {
+	right := "Basic " + b64(user+":"+pass)
+	switch r.Intn(28) {
 	case 0, 1:
 		return nil, "auth-absent"
 	case 2, 3, 4, 5, 6:
 		return []string{right}, "auth-right"
 	case 7:
-		return []string{core.Pick(r, []string{"basic ", "BASIC ", "bAsIc "}) + b64(authUser+":"+authPass)}, "auth-right-scheme-case"
+		return []string{core.Pick(r, []string{"basic ", "BASIC ", "bAsIc "}) + b64(user+":"+pass)}, "auth-right-scheme-case"
 	case 8:
-		v := core.Pick(r, []string{"Bearer " + b64(authUser+":"+authPass), "Digest username=\"user\"", "Basic", "Basic" + b64(authUser+":"+authPass),
-			"Basic\t" + b64(authUser+":"+authPass), "Negotiate " + b64(authUser+":"+authPass), b64(authUser + ":" + authPass), "Basic  " + b64(authUser+":"+authPass)})
+		v := core.Pick(r, []string{"Bearer " + b64(user+":"+pass), "Digest username=\"user\"", "Basic", "Basic" + b64(user+":"+pass),
+			"Basic\t" + b64(user+":"+pass), "Negotiate " + b64(user+":"+pass), b64(user + ":" + pass), "Basic  " + b64(user+":"+pass)})
 		return []string{v}, "auth-wrong-scheme"
 	case 9:
-		good := b64(authUser + ":" + authPass)
+		good := b64(user + ":" + pass)
 		v := core.Pick(r, []string{"Basic !!!!", "Basic " + strings.TrimRight(good, "="), "Basic " + good + "=", "Basic " + good + " x", "Basic " + good[:len(good)-2],
 			"Basic =" + good, "Basic " + strings.ReplaceAll(good, "c", "-"), "Basic ", "Basic " + good + good[:3], "Basic " + good + "===="})
 		return []string{v}, "auth-malformed-base64"
 	case 10, 11:
 		// prefix / suffix variants of user or password
-		u, p := authUser, authPass
+		u, p := user, pass
 		switch r.Intn(8) {
 		case 0:
-			u = u[:len(u)-1]
+			if len(u) > 0 {
+				u = u[:len(u)-1]
+			}
 		case 1:
 			u = u + "x"
 		case 2:
 			u = "x" + u
 		case 3:
-			p = p[:len(p)-1]
+			if len(p) > 0 {
+				p = p[:len(p)-1]
+			}
 		case 4:
 			p = p + "x"
 		case 5:
@@ -71,7 +221,7 @@ func genAuth(r *core.Rand) ([]string, string) {
 		}
 		return []string{"Basic " + b64(u+":"+p)}, "auth-prefix-suffix"
 	case 12:
-		u, p := authUser, authPass
+		u, p := user, pass
 		if r.Bool() {
 			u = strings.ToUpper(u)
 		} else {
@@ -79,7 +229,7 @@ func genAuth(r *core.Rand) ([]string, string) {
 		}
 		return []string{"Basic " + b64(u+":"+p)}, "auth-case-variant"
 	case 13:
-		v := core.Pick(r, []string{b64(authUser + authPass), b64(authUser), b64(authUser + ";" + authPass), b64(authPass + ":" + authUser), b64(":" + authUser + ":" + authPass)})
+		v := core.Pick(r, []string{b64(user + pass), b64(user), b64(user + ";" + pass), b64(pass + ":" + user), b64(":" + user + ":" + pass)})
 		return []string{"Basic " + v}, "auth-no-colon-or-swapped"
 	case 14:
 		return []string{"Basic " + b64("other:secret")}, "auth-other-account"
@@ -91,14 +241,57 @@ func genAuth(r *core.Rand) ([]string, string) {
 		return []string{"", right}, "auth-repeated-empty-first"
 	case 18:
 		// a different base64 spelling of the right credentials (non-zero padding bits): same decoded pair
-		good := []byte(b64(authUser + ":" + authPass))
-		if n := len(good); n > 2 && good[n-1] == '=' && good[n-2] != '=' {
-			// last sextet carries 2 padding bits: flip the lowest
-			const alpha = "ABCDEFGHIJKLMNOPQRSTUVWXYZabcdefghijklmnopqrstuvwxyz0123456789+/"
-			i := strings.IndexByte(alpha, good[n-2])
-			good[n-2] = alpha[i^1]
+		if v, ok := nonCanonicalB64(r, b64(user+":"+pass)); ok {
+			return []string{"Basic " + v}, "auth-right-noncanonical-base64"
 		}
-		return []string{"Basic " + string(good)}, "auth-right-noncanonical-base64"
+		return []string{right}, "auth-right"
+	case 19, 20, 21, 22:
+		// the "near" family, canonical scheme and encoding
+		c, l := nearCredentials(r, user, pass)
+		return []string{"Basic " + b64(c)}, "auth-" + l
+	case 23:
+		// near credentials first, the right ones on a second line (only the first line counts) — or the other way round
+		c, l := nearCredentials(r, user, pass)
+		if r.Chance(65) {
+			return []string{"Basic " + b64(c), right}, "auth-" + l + "-then-right"
+		}
+		return []string{right, "Basic " + b64(c)}, "auth-right-then-" + l
+	case 24:
+		// the right (or near) credentials under another spelling of the scheme
+		c, l := user+":"+pass, "right"
+		if r.Chance(40) {
+			c, l = nearCredentials(r, user, pass)
+		}
+		sp := core.Pick(r, schemeSpellings)
+		if wire && (sp == "" || strings.TrimSpace(sp) != sp && strings.TrimSpace(sp) == "") {
+			sp = "Basic,"
+		}
+		return []string{sp + b64(c)}, "auth-scheme-spelling-" + l
+	case 25:
+		// the right (or near) credentials in another padding / alphabet of base64
+		c, l := user+":"+pass, "right"
+		if r.Chance(40) {
+			c, l = nearCredentials(r, user, pass)
+		}
+		v := "Basic " + paddingVariants(r, b64(c))
+		if wire {
+			v = strings.TrimSpace(v)
+		}
+		return []string{v}, "auth-base64-spelling-" + l
+	case 26:
+		if wire {
+			c, l := nearCredentials(r, user, pass)
+			if v, ok := nonCanonicalB64(r, b64(c)); ok {
+				return []string{"Basic " + v}, "auth-" + l + "-noncanonical-base64"
+			}
+			return []string{"Basic " + b64(c)}, "auth-" + l
+		}
+		// white space around the value (the field value as the control sees it, API level only)
+		c, l := user+":"+pass, "right"
+		if r.Chance(40) {
+			c, l = nearCredentials(r, user, pass)
+		}
+		return []string{core.Pick(r, []string{" Basic " + b64(c), "Basic " + b64(c) + " ", "\tBasic " + b64(c), "Basic " + b64(c) + "\t", " Basic " + b64(c) + " "})}, "auth-value-white-space-" + l
 	default:
 		return []string{right}, "auth-right"
 	}
@@ -266,6 +459,9 @@ func rightAuthField() rig.Field {
 
 func genConn(r *core.Rand, names []string) *connCase {
 	cc := &connCase{Kind: "conn", Mask: r.Intn(16), TimeOpen: r.Chance(75), Mode: core.Pick(r, []string{"direct", "direct", "upstream", "mitm"})}
+	if cc.Mask&ctlTime != 0 && r.Chance(30) {
+		cc.Frames = core.Pick(r, frameKinds)
+	}
 	n := r.Range(1, 4)
 	if cc.Mode == "mitm" {
 		// some requests before the tunnel, then a CONNECT that has a good chance of being accepted,
